@@ -1,5 +1,13 @@
 package main
 
+import (
+	"fmt"
+	"os"
+	"strings"
+)
+
+var dbgSel = os.Getenv("GOVC_DEBUG_SEL")
+
 // Store-to-load forwarding on reference-indexed heap arrays: a Go-side cache of the last value
 // stored at syntactically known indices, valid only for the exact array term it was built for.
 // It keeps solver terms small (no select-over-store chains for freshly allocated objects) and lets
@@ -78,11 +86,19 @@ type fwdCache struct {
 }
 
 func (x *Exec) heapSelect(st *State, name string, arr, idx *Term) *Term {
+	if dbgSel != "" && strings.Contains(name, dbgSel) {
+		c := st.fwd[name]
+		if c == nil {
+			fmt.Fprintf(os.Stderr, "SEL %s arr=%s nocache idx=%.80s class=%d\n", name, arr.S, idx.S, st.class(idx))
+		} else {
+			fmt.Fprintf(os.Stderr, "SEL %s arr=%s cache.arr=%s allFresh=%v base=%v idx=%.80s class=%d\n", name, arr.S, c.arr, c.allFresh, c.base != nil, idx.S, st.class(idx))
+		}
+	}
 	if c := st.fwd[name]; c != nil && c.arr == arr.S {
 		if v, ok := c.ent[idx.S]; ok {
 			return v
 		}
-		if c.allFresh && c.base != nil && st.class(idx) == refOld {
+		if c.allFresh && c.base != nil && (st.class(idx) == refOld || st.readsOld && st.class(idx) != refFresh) {
 			return Select(c.base, idx)
 		}
 	}
